@@ -481,11 +481,11 @@ def basic_pack(**kw):
 
 
 def make_pack(sym=False, inf=False, merge=False, iterative=False, factory=False, parent_factory=False,
-              prefix_verified=None, empty_prefix_verified=False, two_sets=False, no_initial=False, name=None):
+              prefix_verified=None, empty_prefix_verified=False, two_sets=False, no_initial=False, name=None, expand=True):
     inferral = ([MinimizePatterns()] if inf else []) + ([MergeStats()] if merge else [])
     exp = [ExpandFactory()] if factory else [Expand()]
     if parent_factory:
-        exp = exp + [ParentRuleFactory()]
+        exp = (exp if expand else []) + [ParentRuleFactory()]
     expansion = [exp]
     if two_sets:
         expansion = [[RemoveFront()], exp] if no_initial else [exp, [ExpandFactory()]]
